@@ -2,11 +2,93 @@ package main
 
 import (
 	"fmt"
+	"net/http"
+	"net/http/httptest"
 	"strings"
+	"sync/atomic"
 
+	"github.com/vicanso/elton"
+	"github.com/vicanso/pike/cache"
+	"github.com/vicanso/pike/config"
 	"github.com/vicanso/pike/location"
+	"github.com/vicanso/pike/server"
+	"github.com/vicanso/pike/upstream"
 	"pikeverif/internal/hx"
 )
+
+// routeE2E: five origins u0..u4 behind the real upstream registry; servers and
+// their proxy middleware are kept across cases (one per location-name list) while
+// the location registry is re-applied for every case, as a configuration reload does.
+type routeE2E struct {
+	origins  []*httptest.Server
+	contacts []atomic.Int64
+	servers  map[string]elton.Handler
+}
+
+func newRouteE2E() *routeE2E {
+	e := &routeE2E{servers: map[string]elton.Handler{}}
+	e.contacts = make([]atomic.Int64, 5)
+	var ups []config.UpstreamConfig
+	for i := 0; i < 5; i++ {
+		i := i
+		o := httptest.NewServer(http.HandlerFunc(func(rw http.ResponseWriter, r *http.Request) {
+			e.contacts[i].Add(1)
+			rw.Header().Set("X-Origin-Index", fmt.Sprint(i))
+			rw.WriteHeader(200)
+			_, _ = rw.Write([]byte("ok"))
+		}))
+		e.origins = append(e.origins, o)
+		ups = append(ups, config.UpstreamConfig{Name: fmt.Sprintf("u%d", i), Servers: []config.UpstreamServerConfig{{Addr: o.URL}}})
+	}
+	upstream.Reset(ups)
+	return e
+}
+
+func (e *routeE2E) close() {
+	for _, o := range e.origins {
+		o.Close()
+	}
+	upstream.Reset(nil)
+	location.Reset(nil)
+}
+
+// request returns the index of the origin that answered, or -1 when the proxy
+// middleware failed without contacting any origin (-2: failed but an origin was contacted)
+func (e *routeE2E) request(names []string, host, uri string) (int, string) {
+	key := strings.Join(names, ",")
+	mid, ok := e.servers[key]
+	if !ok {
+		mid = server.NewProxy(server.NewServer(server.ServerOption{Locations: names}))
+		e.servers[key] = mid
+	}
+	before := int64(0)
+	for i := range e.contacts {
+		before += e.contacts[i].Load()
+	}
+	req := httptest.NewRequest("GET", "http://"+host+uri, nil)
+	req.Host = host
+	req.RequestURI = uri // origin-form, as a real server receives it
+	c := elton.NewContext(httptest.NewRecorder(), req)
+	c.Next = func() error { return nil }
+	server.VerifSetCacheStatus(c, cache.StatusPassed)
+	err := mid(c)
+	after := int64(0)
+	for i := range e.contacts {
+		after += e.contacts[i].Load()
+	}
+	if err != nil {
+		if after != before {
+			return -2, err.Error()
+		}
+		return -1, err.Error()
+	}
+	resp := server.VerifGetHTTPResp(c)
+	idx := -3
+	if resp != nil {
+		fmt.Sscanf(resp.Header.Get("X-Origin-Index"), "%d", &idx)
+	}
+	return idx, ""
+}
 
 func init() { families["route"] = runRoute }
 
@@ -29,10 +111,12 @@ func strList(xs []string) string {
 func runRoute(seed uint64, n int, tier string, out string, replay string) {
 	rnd := hx.NewRand(seed)
 	sum := hx.NewSummary("route", seed)
-	sum.Rule = "one case = one location set (1-5 locations; host list and prefix list drawn from 4 fixed shapes or (60%) 1-4 related prefixes from a pool of 10 in any order (nested prefixes, duplicates); names possibly shared or unlisted; declaration order random) queried with every (host, URI) of a 3x11 universe under 3 server location lists; observable = which configured location the real Locations.Get returns; non-trivial = at least two eligible locations of different classes for some query; distinct by the location set"
+	sum.Rule = "one case = one location set (1-5 locations; host list and prefix list drawn from 4 fixed shapes or (60%) 1-4 related prefixes from a pool of 10 in any order (nested prefixes, duplicates); names possibly shared or unlisted; declaration order random) queried with every (host, URI) of a 3x11 universe under 3 server location lists; observable = which configured location the real Locations.Get returns; 6% of the queries are also sent through a long-lived server's proxy middleware (kept across cases while the location registry is re-applied for every case, as a reload does) to five recording origins: the answering origin must be the chosen location's upstream, and none may be contacted when no location matches; non-trivial = at least two eligible locations of different classes for some query; distinct by the location set"
 	header := "From Coq Require Import List NArith ZArith.\nImport ListNotations.\nFrom Pike Require Import Base.Bytes Model.Location Corr.C14Corr.\nFrom PikeRun Require Import Consts.\n"
 	w := hx.NewCaseWriter(out, "route", header, "list rt_case", "check_cases Consts.loc_pconsts", 60, sum)
 	distinct := hx.NewDistinct()
+	e2e := newRouteE2E()
+	defer e2e.close()
 	for i := 0; i < n; i++ {
 		nl := 1 + rnd.Intn(5)
 		opts := make([]location.Location, nl)
@@ -58,6 +142,11 @@ func runRoute(seed uint64, n int, tier string, out string, replay string) {
 			sig += fmt.Sprintf("%s|%v|%v;", name, hl, pl)
 		}
 		ls := location.NewLocations(opts...)
+		var lcfg []config.LocationConfig
+		for j := 0; j < nl; j++ {
+			lcfg = append(lcfg, config.LocationConfig{Name: opts[j].Name, Upstream: opts[j].Upstream, Hosts: opts[j].Hosts, Prefixes: opts[j].Prefixes})
+		}
+		location.Reset(lcfg) // the registry the running servers route with (a reload between cases)
 		nameLists := [][]string{}
 		all := []string{}
 		for j := 0; j < nl; j++ {
@@ -83,6 +172,15 @@ func runRoute(seed uint64, n int, tier string, out string, replay string) {
 					if got != nil {
 						fmt.Sscanf(got.Upstream, "u%d", &idx)
 						impl = fmt.Sprintf("(Some %d)", idx)
+					}
+					if rnd.Chance(6) && len(names) > 0 {
+						// the same query through a long-lived server's proxy middleware and the real upstream registry
+						if seen, errText := e2e.request(names, h, u); seen != idx {
+							_ = errText
+							sum.ImplViolations = append(sum.ImplViolations, map[string]interface{}{"property": "C14", "kind": "routed-elsewhere", "host": h, "uri": u, "server_locations": strings.Join(names, ","),
+								"locations": sig, "expected_origin": idx, "answered_by": seen, "error": errText, "legend": "-1 = error without contacting an origin, -2 = error after contacting one"})
+						}
+						sum.Count("e2e-request")
 					}
 					qTerms = append(qTerms, fmt.Sprintf("{| rq_host := %s; rq_url := %s; rq_names := %s; rq_impl := %s |}", hx.Str(h), hx.Str(u), strList(names), impl))
 					if len(qRep) < 12 {
